@@ -99,6 +99,11 @@ type c06Model struct {
 	redundantPct int
 	redStats     func(kind string, accepted bool)
 	follow       *c06Follow // the ordinary inverse of the last accepted redundant operation, still to be drawn
+	// "volatile" units only (c06_volatile_test.go): streams get 3..5 replicas out
+	// of five brokers (so that one or two leader reports stay below the quorum)
+	// and three fifths of the draws are ISR / leader / pause / resume / read-only
+	// operations (focus 1) resp. consumer-group operations (focus 2).
+	focus int
 }
 
 func newC06Model() *c06Model {
@@ -244,6 +249,16 @@ func (m *c06Model) gen(rng *kit.RNG, index uint64) *c06Op {
 func (m *c06Model) gen0(rng *kit.RNG, index uint64) *c06Op {
 	for try := 0; try < 200; try++ {
 		x := rng.Intn(100)
+		if m.focus != 0 && len(m.Streams) > 0 && rng.Chance(3, 5) {
+			switch {
+			case m.focus == 2:
+				x = 83 + rng.Intn(17) // group create / join / leave / coordinator change
+			case rng.Chance(2, 3):
+				x = 60 + rng.Intn(23) // shrink / expand / change leader
+			default:
+				x = 30 + rng.Intn(30) // pause / resume / read-only
+			}
+		}
 		if m.lastKind == "delete" && len(m.Groups) > 0 && try == 0 && rng.Chance(1, 2) {
 			x = 83 + rng.Intn(17) // a group operation right after a delete (it can overtake the async group notification)
 		}
@@ -271,11 +286,17 @@ func (m *c06Model) gen0(rng *kit.RNG, index uint64) *c06Op {
 			rf := 0
 			for p := 0; p < nparts; p++ {
 				perm := append([]string(nil), c06Brokers...)
+				if m.focus != 0 {
+					perm = append(perm, "b5")
+				}
 				for i := len(perm) - 1; i > 0; i-- {
 					j := rng.Intn(i + 1)
 					perm[i], perm[j] = perm[j], perm[i]
 				}
 				rf = rng.Range(1, 3)
+				if m.focus != 0 {
+					rf = rng.Range(3, 5)
+				}
 				reps := perm[:rf]
 				if name == m.apiStream {
 					rf, reps = 1, []string{m.local}
@@ -1349,6 +1370,7 @@ func TestVerifC06Replay(t *testing.T) {
 	rep.Assume("histories are valid: every op satisfies the precondition checks the metadata API makes before proposing it (shrink names a non-leader ISR member with the current leader/epoch, ISR/leader ops only on running partitions, join/create-group only name existing streams)")
 	rep.Assume("restart model = single-node restart: the whole log suffix after the snapshot is at or below the commit index when the first entry is applied, so all of it is applied with recovered=true (validated against the real Apply by the restart unit)")
 	rep.Assume("stream.resumeAll, group partition assignments and the activity index are not part of the compared digest (observations only)")
+	c06VolatileNote(rep, 1)
 	root := kit.NewRNG(kit.Mix(kit.Seed(), 0xC06))
 	nh := kit.EnvInt("C06_HISTORIES", kit.Scale(200, 1800))
 	seeds := make([]uint64, nh)
@@ -1411,10 +1433,13 @@ func c06RunHistory(rep *kit.Report, id int, seed uint64) { c06RunHistoryMode(rep
 
 // c06RunHistoryMode: redundantPct > 0 = the "redundant" unit (longer histories,
 // that share of the operations drawn by genRedundant against server A).
-func c06RunHistoryMode(rep *kit.Report, id int, seed uint64, redundantPct int) {
+func c06RunHistoryMode(rep *kit.Report, id int, seed uint64, redundantPct int, focus ...int) {
 	rng := kit.NewRNG(seed)
 	h := &c06Hist{rep: rep, id: id, seed: seed}
 	model := newC06Model()
+	if len(focus) > 0 {
+		model.focus = focus[0]
+	}
 	n := rng.Range(3, 12)
 	cont := rng.Range(0, 3)
 	if redundantPct > 0 {
@@ -1452,6 +1477,10 @@ func c06RunHistoryMode(rep *kit.Report, id int, seed uint64, redundantPct int) {
 	defer gateC.drop(C)
 	expectC := 0
 	var pendingC bool
+	// Volatile controller-local state (pending leader / coordinator reports) on
+	// server A only, see c06_volatile_test.go.
+	c06MakeController(A)
+	vol := c06NewVol(rep, seed)
 
 	snaps := make([][]byte, 0, n+1)
 	digests := make([]c06Digest, 0, n+1)
@@ -1468,6 +1497,7 @@ func c06RunHistoryMode(rep *kit.Report, id int, seed uint64, redundantPct int) {
 		op := model.gen(rng, index)
 		h.ops = append(h.ops, op)
 		index += uint64(rng.Range(1, 3))
+		vol.before(A, op)
 		for _, s := range []*Server{A, B} {
 			if err := c06Apply(s, op, false); err != nil {
 				h.violation("C06:apply-error:"+op.Kind, fmt.Sprintf("a valid operation was rejected by the FSM (Server.Apply would panic): %s: %v", op.Desc, err), nil)
@@ -1574,6 +1604,7 @@ func c06RunHistoryMode(rep *kit.Report, id int, seed uint64, redundantPct int) {
 		op := contModel.gen(rng, index)
 		index += uint64(rng.Range(1, 3))
 		contOps = append(contOps, op)
+		vol.before(A, op)
 		if err := c06Apply(A, op, false); err != nil {
 			h.ops = append(h.ops, contOps...)
 			h.violation("C06:apply-error:"+op.Kind, fmt.Sprintf("a valid operation was rejected by the FSM: %s: %v", op.Desc, err), nil)
@@ -1747,7 +1778,7 @@ func c06Shape(ops []*c06Op) []string {
 
 func c06CloneModel(m *c06Model) *c06Model {
 	c := newC06Model()
-	c.real, c.redundantPct, c.redStats = m.real, m.redundantPct, m.redStats
+	c.real, c.redundantPct, c.redStats, c.focus = m.real, m.redundantPct, m.redStats, m.focus
 	for k, v := range m.incs {
 		c.incs[k] = v
 	}
@@ -1943,6 +1974,7 @@ func TestVerifC06Restart(t *testing.T) {
 	defer rep.Write()
 	rep.SetRule("single-node servers with real Raft, BoltDB log store and file snapshot store on a private NATS server: 8..16 valid ops per scenario (same generator; streams s1,s2 carry phantom replicas b1..b4 and are proposed through raftNode.applyOperation with the real precondition functions / the metadata API for delete, pause, read-only, ShrinkISR, ExpandISR, join, leave; stream s3 is created through the gRPC-level API, led by the server itself, published to and resumed through the metadata API), raft.Snapshot() forced at seeded positions (half of them left running while the next op is applied), server stopped and restarted on the same data dir at seeded positions (>=1 per scenario); oracle: digest after restart (leader elected + Raft barrier) == digest before the stop, markers of surviving streams still stored, no entry/dir for deleted streams; non-trivial = a restart whose replayed suffix or snapshot prefix contains delete/re-create, pause/resume, read-only, ISR or group ops; distinct = scenario op text + restart/snapshot positions")
 	rep.Assume("Level 2 waits for logical conditions only (leader elected, Raft barrier applied, group members no longer list a deleted stream); a watchdog expiry is reported as inconclusive")
+	c06VolatileNote(rep, 2)
 	root := kit.NewRNG(kit.Mix(kit.Seed(), 0xC0612))
 	nsc := kit.EnvInt("C06_L2_SCENARIOS", kit.Scale(6, 56))
 	seeds := make([]uint64, nsc)
@@ -2085,10 +2117,13 @@ func c06RunL2(rep *kit.Report, id int, seed uint64) { c06RunL2Mode(rep, id, seed
 // c06RunL2Mode: redundantPct > 0 = the "redundant-restart" unit (that share of
 // the operations drawn by genRedundant; whether such an operation is accepted
 // is decided by the running server's metadata API).
-func c06RunL2Mode(rep *kit.Report, id int, seed uint64, redundantPct int) {
+func c06RunL2Mode(rep *kit.Report, id int, seed uint64, redundantPct int, focus ...int) {
 	rng := kit.NewRNG(seed)
 	h := &c06Hist{rep: rep, id: id, seed: seed}
 	model := newC06Model()
+	if len(focus) > 0 {
+		model.focus = focus[0]
+	}
 	model.apiStream, model.local = "s3", "a"
 	c, s, err := vfSingle("c06l2", func(cfg *Config) {
 		cfg.Groups.ConsumerTimeout = time.Hour
@@ -2111,6 +2146,7 @@ func c06RunL2Mode(rep *kit.Report, id int, seed uint64, redundantPct int) {
 			}
 		}
 	}
+	vol := c06NewVol(rep, seed) // pending leader / coordinator reports on the running server, see c06_volatile_test.go
 	lastSnap := 0
 	restarts := 0
 	overlappedSnaps := 0
@@ -2250,7 +2286,16 @@ func c06RunL2Mode(rep *kit.Report, id int, seed uint64, redundantPct int) {
 			// "concurrent" unit); here the overlap is kept to fixed-size mutations.
 			finishSnap()
 		}
-		if err := c06L2Exec(s, model, op); err != nil {
+		vol.before(s, op)
+		err := error(nil)
+		if note, done := vol.failoverByReports(s, model, op); done {
+			// the leader change of the history was decided by the controller itself after
+			// a quorum of reports (its failover bookkeeping stays behind on this server)
+			events[len(events)-1] += note
+		} else {
+			err = c06L2Exec(s, model, op)
+		}
+		if err != nil {
 			if op.Redundant {
 				// the metadata API is the judge of whether a redundant operation is let through
 				rep.Count("redundant_refused_by_metadata_api_"+op.Kind, 1)
